@@ -45,6 +45,52 @@ fn expect(rep: &Report, clause: &str, case: Value, what: &str, should_accept: bo
     }
 }
 
+/// A reader that holds NO private key tries every secret it can form from public data on `file`.
+/// (The honest recipient, via REF, only tells us the handshake hash and the payload key actually used, to compare against.)
+fn public_reader(rep: &Report, case: Value, file: &[u8], r_sk: &[u8; 32], r_pk: &[u8; 32], s_pk: &[u8; 32]) {
+    let kf = match r::read_key_file(r_sk, file) {
+        Ok(kf) => kf,
+        Err(e) => {
+            rep.violation("public/not-conforming", case, format!("REF cannot read the file: {:?}", e));
+            return;
+        }
+    };
+    let x = r::noise_x_read(&r::KEY_MAGIC, r_sk, r_pk, &file[4..132]).unwrap();
+    let mut nine = [0u8; 32];
+    nine[0] = 9;
+    let zero_eph = r::x25519_base(&[0u8; 32]);
+    let public: Vec<(&str, Vec<u8>)> = vec![
+        ("all-zero", vec![0u8; 32]),
+        ("all-ones", vec![0xff; 32]),
+        ("sender public key", s_pk.to_vec()),
+        ("recipient public key", r_pk.to_vec()),
+        ("ephemeral public key", file[4..36].to_vec()),
+        ("handshake hash", x.h.to_vec()),
+        ("format magic padded", [r::KEY_MAGIC.to_vec(), vec![0u8; 28]].concat()),
+        ("base point", nine.to_vec()),
+        ("sha256(ephemeral public key)", r::sha256(&file[4..36]).to_vec()),
+    ];
+    for (name, cand) in &public {
+        let fk = r::file_key_from_handshake(cand, &x.h);
+        if kf.payload_key[..] == cand[..] || r::read_chunks(&fk, &[], &file[132..], 65536).is_ok() || r::read_chunks(cand.as_slice().try_into().unwrap(), &[], &file[132..], 65536).is_ok() {
+            rep.violation(
+                "public/file-key-derivable-from-public-data",
+                case.clone(),
+                format!("a file produced with randomness left to the implementation can be read without any private key: its payload/file key is derivable from public data ({})", name),
+            );
+            return;
+        }
+    }
+    // an ephemeral key whose private half is a publicly known scalar gives away DH(e, rs), hence the payload key
+    for (name, scalar) in [("all-zero scalar", [0u8; 32]), ("all-ones scalar", [0xffu8; 32])] {
+        if file[4..36] == r::x25519_base(&scalar)[..] {
+            rep.violation("public/ephemeral-private-key-is-public", case.clone(), format!("the file's ephemeral public key is the public key of the {}", name));
+            return;
+        }
+    }
+    let _ = zero_eph;
+}
+
 pub fn run(rep: &'static Report) {
     let seed = rep.seed;
     rep.set_rule("E-GRID: the full product of key-role assignments over K = {S, S', R, R'} for the real encryptor (4^4) and for the REF forger (roles x forging degrees), all 2^4 field mixes of pairs of authentic files, and all 52 special X25519 encodings as recipient and as ephemeral key; each point is one execution of the real key_encrypt/key_decrypt compared with the role model. distinct non-trivial = distinct tuples");
@@ -265,39 +311,7 @@ pub fn run(rep: &'static Report) {
                 rep.violation("public/encrypt-error", case, format!("key_encrypt failed: {}", eres.brief()));
                 continue;
             }
-            // the honest recipient (REF) tells us the handshake hash and the payload key actually used
-            let kf = match r::read_key_file(&k[ri].sk, &file) {
-                Ok(kf) => kf,
-                Err(e) => {
-                    rep.violation("public/not-conforming", case, format!("REF cannot read the file: {:?}", e));
-                    continue;
-                }
-            };
-            let x = r::noise_x_read(&r::KEY_MAGIC, &k[ri].sk, &k[ri].pk, &file[4..132]).unwrap();
-            let mut nine = [0u8; 32];
-            nine[0] = 9;
-            let public: Vec<(&str, Vec<u8>)> = vec![
-                ("all-zero", vec![0u8; 32]),
-                ("all-ones", vec![0xff; 32]),
-                ("sender public key", k[si].pk.to_vec()),
-                ("recipient public key", k[ri].pk.to_vec()),
-                ("ephemeral public key", file[4..36].to_vec()),
-                ("handshake hash", x.h.to_vec()),
-                ("format magic padded", [r::KEY_MAGIC.to_vec(), vec![0u8; 28]].concat()),
-                ("base point", nine.to_vec()),
-                ("sha256(ephemeral public key)", r::sha256(&file[4..36]).to_vec()),
-            ];
-            for (name, cand) in &public {
-                let fk = r::file_key_from_handshake(cand, &x.h);
-                if kf.payload_key[..] == cand[..] || r::read_chunks(&fk, &[], &file[132..], 65536).is_ok() || r::read_chunks(cand.as_slice().try_into().unwrap(), &[], &file[132..], 65536).is_ok() {
-                    rep.violation(
-                        "public/file-key-derivable-from-public-data",
-                        case.clone(),
-                        format!("a file produced by key_encrypt (randomness left to the implementation) can be read without any private key: its payload/file key is derivable from public data ({})", name),
-                    );
-                    break;
-                }
-            }
+            public_reader(rep, case, &file, &k[ri].sk, &k[ri].pk, &k[si].pk);
             rep.nontrivial(format!("public-{}-{}-{}", si, ri, l).as_bytes());
         }
     }
@@ -306,7 +320,8 @@ pub fn run(rep: &'static Report) {
         let mut seen: Vec<(usize, [u8; 32], [u8; 32], Vec<u8>)> = vec![]; // (recipient, payload key, file key, chunk region)
         for i in 0..nseq {
             rep.eval(1);
-            let ri = [2usize, 3, 0, 1][i % 4];
+            // aperiodic recipient pattern: for every lag d <= 24 some pair (i, i+d) has different recipients
+            let ri = (i + i / 4 + i / 16) % 4;
             let si = [0usize, 1][i % 2];
             let pl = plaintext(seed ^ 0x5d ^ i as u64, 20 + i);
             let enc = Subject::KeyEnc { s: hx(&k[si].sk), s_pub: hx(&k[si].pk), r_pub: hx(&k[ri].pk), e: String::new(), payload: String::new() };
@@ -342,6 +357,59 @@ pub fn run(rep: &'static Report) {
         }
         rep.extra("auto_keyed_sequence_length", json!(nseq));
         rep.nontrivial(b"auto-keyed-sequence");
+    }
+    // the same reader on what `kestrel encrypt` produces under every answer of the OS randomness source within the bound
+    // (persistent failure from call k, EINTR / EAGAIN / 1-byte answer at call k, 1-byte answers throughout)
+    {
+        use crate::c07::{rng_calls, rng_env, rng_schedules, RNG_SHIM};
+        use crate::fx::Party;
+        use crate::proc::{self, Cmd, Scratch};
+        use rayon::prelude::*;
+        let alice = Party::new(seed, "alice", "alicepw");
+        let bob = Party::new(seed, "bob", "bobpw");
+        let keyring = crate::fx::keyring(&[(&alice, true), (&bob, false)]);
+        let pl = plaintext(seed ^ 0x5e, 300);
+        let run = |env: &[(String, String)]| -> Option<Vec<u8>> {
+            let sc = Scratch::new();
+            sc.write("kr.txt", keyring.as_bytes());
+            sc.write("plain.bin", &pl);
+            let mut c = Cmd::new(&["encrypt", "plain.bin", "-t", "bob", "-f", "alice", "-k", "kr.txt", "-o", "out.ktl", "--env-pass"]).env("KESTREL_PASSWORD", "alicepw");
+            for (k, v) in env {
+                c = c.env(k, v);
+            }
+            let out = proc::run(&c, &sc.0);
+            if out.ok() {
+                sc.read("out.ktl")
+            } else {
+                None
+            }
+        };
+        if !std::path::Path::new(RNG_SHIM).exists() {
+            rep.violation("rngfault/machinery", json!({"kind":"rngfault"}), format!("MACHINERY: {} not built", RNG_SHIM));
+        } else {
+            match rng_calls(|env| run(env).is_some()) {
+                Some(n) if n >= 1 => {
+                    let scheds = rng_schedules(n);
+                    let files: Vec<(String, usize, Option<Vec<u8>>)> = scheds.par_iter().map(|(m, k)| (m.clone(), *k, run(&rng_env(m, *k, None)))).collect();
+                    let mut produced = 0;
+                    for (m, kk, f) in files {
+                        rep.eval(1);
+                        rep.nontrivial(format!("rngfault-{}-{}", m, kk).as_bytes());
+                        if let Some(file) = f {
+                            produced += 1;
+                            let case = json!({"kind":"rngfault","mode":m,"k":kk});
+                            if file.len() < 132 {
+                                rep.violation("public/not-conforming", case, "kestrel encrypt exit 0 with a file shorter than a header".into());
+                                continue;
+                            }
+                            public_reader(rep, case, &file, &bob.sk, &bob.pk, &alice.pk);
+                        }
+                    }
+                    rep.extra("rng_schedules_cli_encrypt", json!({"getrandom_calls":n,"schedules":scheds.len(),"files_produced":produced}));
+                }
+                other => rep.violation("rngfault/shim-not-effective", json!({"kind":"rngfault"}), format!("MACHINERY: counting run saw {:?} getrandom calls", other)),
+            }
+        }
     }
     rep.extra("special_points", json!(sp.len()));
     rep.extra("small_order_encodings", json!(small));
